@@ -30,7 +30,12 @@
 #include <map>
 #include <set>
 
+#include <signal.h>
+
+#include <functional>
+
 #include "oomd/Log.h"
+#include "oomd/Oomd.h"
 #include "oomd/OomdContext.h"
 #include "oomd/PluginRegistry.h"
 #include "oomd/Stats.h"
@@ -233,6 +238,23 @@ class VAdaptor : public DropInServiceAdaptor {
   }
 };
 
+// ---- "main_loop": true - the ticks are iterations of the real Oomd::run loop ----------------------------------------------
+// The scenario's adaptor is installed as Oomd::fs_drop_in_service_ (explicit instantiation may name a private member), so the
+// order `updateDropIns -> updateContext -> prerun -> runOnce` is the one Oomd.cpp has, not one written out here.  The
+// interposed sigtimedwait is the tick boundary: it finishes the previous tick (operation results, events, probes) and starts
+// the next (clock, operations scheduled through the adaptor, script), or returns SIGTERM after the last one.
+template <auto M>
+struct RobDropIn {
+  friend std::unique_ptr<DropInServiceAdaptor>& oomdDropIn(::Oomd::Oomd& o) { return o.*M; }
+};
+std::unique_ptr<DropInServiceAdaptor>& oomdDropIn(::Oomd::Oomd& o);
+template struct RobDropIn<&::Oomd::Oomd::fs_drop_in_service_>;
+
+std::function<void()> g_ml_end;              // finish the tick that just ran
+std::function<bool()> g_ml_begin;            // start the next tick; false = no more ticks
+bool g_ml_on = false;
+bool g_ml_started = false;
+
 Config2::IR::Ruleset irRuleset(const Json::Value& r) {
   Config2::IR::Ruleset ir;
   ir.name = "r" + std::to_string(r["rid"].asInt());
@@ -300,56 +322,47 @@ void runHistory(const Json::Value& sc, const Json::Value& tickList, Json::Value&
     rmTree(top);
     return;
   }
-  VAdaptor adaptor(cgfs, droot_base, *engine);
+  Engine::Engine* eng = engine.get();
+  auto adaptorOwner = std::make_unique<VAdaptor>(cgfs, droot_base, *engine);
+  VAdaptor& adaptor = *adaptorOwner;
   Json::Value ticks(Json::arrayValue);
   Json::Value ops(Json::arrayValue);
   Json::Value probes(Json::arrayValue);
   int tickNo = 0;
-  for (const auto& t : tickList) {
+  std::vector<Json::Value> rows;
+  std::vector<size_t> queued; // rows that reached the queue, in order
+  Json::Value evs(Json::arrayValue);
+
+  // before the tick: clock, tree delta, the tick's drop-in operations scheduled through the real DropInServiceAdaptor
+  // (compileDropIn runs at scheduling time; what does not compile is not queued), the tick's script
+  auto beginTick = [&](const Json::Value& t) {
     vh::advanceNs(t["gap"].asInt64());
     if (t.isMember("delta")) vh::applyDelta(cgfs, t["delta"]);
-    // drop-in operations happen before the tick's prerun (Oomd::run: updateDropIns first).  All of
-    // the tick's operations are scheduled through the real DropInServiceAdaptor (compileDropIn runs
-    // at scheduling time; what does not compile is not queued) and applied by one updateDropIns().
-    {
-      std::vector<Json::Value> rows;
-      std::vector<size_t> queued; // rows that reached the queue, in order
-      int opNo = 0;
-      for (const auto& op : t["ops"]) {
-        Json::Value o(Json::arrayValue);
-        o.append(tickNo);
-        o.append(opNo++);
-        std::string tag = op["tag"].asString();
-        if (op["op"].asString() == "add") {
-          Config2::IR::Root droot;
-          for (const auto& r : op["rulesets"]) droot.rulesets.push_back(irRuleset(r));
-          for (const auto& h : op["hooks"]) droot.prekill_hooks.push_back(irHook(h));
-          if (adaptor.add(tag, droot)) {
-            queued.push_back(rows.size());
-          } else {
-            o.append("compile-failed");
-            o.append(-1); // not an engine operation: no statistic to report
-          }
-        } else {
-          adaptor.remove(tag);
+    rows.clear();
+    queued.clear();
+    int opNo = 0;
+    for (const auto& op : t["ops"]) {
+      Json::Value o(Json::arrayValue);
+      o.append(tickNo);
+      o.append(opNo++);
+      std::string tag = op["tag"].asString();
+      if (op["op"].asString() == "add") {
+        Config2::IR::Root droot;
+        for (const auto& r : op["rulesets"]) droot.rulesets.push_back(irRuleset(r));
+        for (const auto& h : op["hooks"]) droot.prekill_hooks.push_back(irHook(h));
+        if (adaptor.add(tag, droot)) {
           queued.push_back(rows.size());
-        }
-        rows.push_back(o);
-      }
-      adaptor.results.clear();
-      adaptor.updateDropIns();
-      for (size_t i = 0; i < queued.size(); i++) {
-        Json::Value& o = rows[queued[i]];
-        if (i < adaptor.results.size()) {
-          o.append(adaptor.results[i].first);
-          o.append((Json::Int64)adaptor.results[i].second);
         } else {
-          o.append("lost");
-          o.append(-1);
+          o.append("compile-failed");
+          o.append(-1); // not an engine operation: no statistic to report
         }
+      } else {
+        adaptor.remove(tag);
+        queued.push_back(rows.size());
       }
-      for (auto& o : rows) ops.append(o);
+      rows.push_back(o);
     }
+    adaptor.results.clear();
     g_calls.clear();
     const Json::Value& calls = t["calls"];
     for (auto it = calls.begin(); it != calls.end(); ++it) {
@@ -359,23 +372,35 @@ void runHistory(const Json::Value& sc, const Json::Value& tickList, Json::Value&
       c.pause = (*it)[2].asInt64();
       g_calls[std::stoi(it.key().asString())] = c;
     }
-    Json::Value evs(Json::arrayValue);
+    evs = Json::Value(Json::arrayValue);
     g_events = &evs;
-    OomdContext ctx;
-    engine->prerun(ctx);
-    engine->runOnce(ctx);
+  };
+  // after the tick: results of the operations (reported by updateDropIns through the adaptor's callbacks), events, probes
+  auto endTick = [&]() {
     g_events = nullptr;
+    for (size_t i = 0; i < queued.size(); i++) {
+      Json::Value& o = rows[queued[i]];
+      if (i < adaptor.results.size()) {
+        o.append(adaptor.results[i].first);
+        o.append((Json::Int64)adaptor.results[i].second);
+      } else {
+        o.append("lost");
+        o.append(-1);
+      }
+    }
+    for (auto& o : rows) ops.append(o);
     ticks.append(evs);
+    OomdContext pctx;
     Json::Value pr(Json::arrayValue);
     for (const auto& p : sc["probes"]) {
       Json::Value asked(Json::arrayValue);
       g_asked = &asked;
       g_fired = -1;
-      auto cg = CgroupContext::make(ctx, CgroupPath(cgfs, p.asString()));
+      auto cg = CgroupContext::make(pctx, CgroupPath(cgfs, p.asString()));
       Json::Value one(Json::arrayValue);
       one.append(p.asString());
       if (cg) {
-        auto inv = engine->firePrekillHook(*cg, ctx);
+        auto inv = eng->firePrekillHook(*cg, pctx);
         one.append(inv.has_value() ? g_fired : -1);
       } else {
         one.append(-2);
@@ -386,12 +411,51 @@ void runHistory(const Json::Value& sc, const Json::Value& tickList, Json::Value&
     }
     probes.append(pr);
     tickNo++;
+  };
+
+  if (sc.get("main_loop", false).asBool()) {
+    Json::ArrayIndex next = 0;
+    g_ml_end = endTick;
+    g_ml_begin = [&]() {
+      if (next >= tickList.size()) return false;
+      beginTick(tickList[next++]);
+      return true;
+    };
+    g_ml_on = true;
+    g_ml_started = false;
+    {
+      auto ir = std::make_unique<Config2::IR::Root>(root);
+      ::Oomd::Oomd oomd(std::move(ir), std::move(engine), 5, cgfs, "");
+      oomdDropIn(oomd) = std::move(adaptorOwner);
+      sigset_t mask;
+      sigemptyset(&mask);
+      oomd.run(&mask);
+      g_ml_on = false;
+      out["ticks"] = ticks;
+      out["ops"] = ops;
+      out["probes"] = probes;
+      out["final_stat"] = (Json::Int64)statOf(CoreStats::kNumDropInAdds);
+      out["fired_stat"] = (Json::Int64)statOf(CoreStats::kNumDropInFired);
+      out["main_loop"] = true;
+    }   // ~Oomd: adaptor, engine
+    out["leaked_instances"] = g_live_instances;
+    rmTree(top);
+    return;
+  }
+  for (const auto& t : tickList) {
+    beginTick(t);
+    adaptor.updateDropIns();
+    OomdContext ctx;
+    engine->prerun(ctx);
+    engine->runOnce(ctx);
+    endTick();
   }
   out["ticks"] = ticks;
   out["ops"] = ops;
   out["probes"] = probes;
   out["final_stat"] = (Json::Int64)statOf(CoreStats::kNumDropInAdds);
   out["fired_stat"] = (Json::Int64)statOf(CoreStats::kNumDropInFired);
+  adaptorOwner.reset();
   engine.reset();
   out["leaked_instances"] = g_live_instances;
   rmTree(top);
@@ -408,6 +472,19 @@ void runScenario(const Json::Value& sc, Json::Value& out) {
 }
 
 } // namespace
+
+extern "C" {
+int pthread_kill(pthread_t, int) { return 0; }
+
+int sigtimedwait(const sigset_t*, siginfo_t*, const struct timespec*) {
+  if (!g_ml_on) { errno = EAGAIN; return -1; }
+  if (g_ml_started) g_ml_end();
+  g_ml_started = true;
+  if (!g_ml_begin()) return SIGTERM;
+  errno = EAGAIN;
+  return -1;
+}
+}
 
 int main() {
   std::string sock = vh::scratchRoot() + "/stats-" + std::to_string(getpid()) + ".sock";
